@@ -34,7 +34,7 @@ LEVEL_TEXT = ('Kernel-checked for every value type, conversion, column content a
               'engine is compared with the real column-level conversion for all 156 type pairs.')
 LEVEL_NOTE = ('Kernel strength: the engine\'s recalculation of dependent formulas and the value conversion functions themselves '
               '(C22) are outside the model. On the unchanged tree set() re-parses one alt-text (ints >= 2^31 into RefList).')
-DISABLED = True
+
 
 TYPES = ['Text', 'Int', 'Numeric', 'Bool', 'Date', 'DateTime:UTC', 'DateTime:America/New_York', 'Choice', 'ChoiceList',
          'Any', 'Ref:U', 'RefList:U', 'Attachments']
